@@ -72,9 +72,10 @@ FACTS = [
      r"async fn write_provision_state\b(?:(?!\n\}\n).)*?STATUS_TAG_TMP_FILE_NAME(?:(?!\n\}\n).)*?rename\(", "count", 1, ["C16"]),
     # C11: the status task clears the summaries a day after it started / last cleared
     ("statusClearSeconds", "proxy_agent/src/proxy_agent_status.rs",
-     r"let\s+map_clear_duration\s*=\s*Duration::from_secs\(([0-9_ *]+)\)\s*;", "prod", 86400, ["C11"]),
-    ("statusClearTest", ["proxy_agent/src/proxy_agent_status.rs"], r"if\s+start_time\.elapsed\(\)\s*>=\s*map_clear_duration\s*\{", "count", 1, ["C11"]),
-    ("statusClearRestarts", ["proxy_agent/src/proxy_agent_status.rs"], r"start_time\s*=\s*Instant::now\(\)\s*;", "count", 2, ["C11"]),
+     r"let\s+(\w+)\s*=\s*Duration::from_secs\(([0-9_ *]+)\)\s*;(?=.*?\bif\s+\w+\.elapsed\(\)\s*>=\s*\1\s*\{[^{}]*?\bclear\w*\()", "prod", 86400, ["C11"]),
+    ("statusClearTest", ["proxy_agent/src/proxy_agent_status.rs"], r"\bif\s+\w+\.elapsed\(\)\s*>=\s*\w+\s*\{[^{}]*?\bclear\w*\(", "count", 1, ["C11"]),
+    ("statusClearResetsTimer", ["proxy_agent/src/proxy_agent_status.rs"],
+     r"\bif\s+(\w+)\.elapsed\(\)\s*>=\s*\w+\s*\{[^{}]*?\bclear\w*\(.{0,600}?\b\1\s*=\s*Instant::now\(\)", "count", 1, ["C11"]),
     ("keeperRestPlainSub", ["proxy_agent/src/key_keeper.rs"], r"let\s+continue_sleep\s*=\s*\w+\.as_millis\(\)\s*-\s*\w+", "count", 0, ["C13"]),
     ("stateKeyReadStatusFile", "proxy_agent_extension/src/constants.rs", r'pub const STATE_KEY_READ_PROXY_AGENT_STATUS_FILE\s*:\s*&str\s*=\s*"([^"]*)"\s*;', "str", "ReadProxyAgentStatusFile", ["C20"]),
     ("stateKeyFileVersion", "proxy_agent_extension/src/constants.rs", r'pub const STATE_KEY_FILE_VERSION\s*:\s*&str\s*=\s*"([^"]*)"\s*;', "str", "FileVersion", ["C20"]),
@@ -84,9 +85,9 @@ FACTS = [
     ("auditMapType", "linux-ebpf/ebpf_cgroup.c", r"\{[^{}]*__uint\(type,\s*(BPF_MAP_TYPE_\w+)\)[^{}]*\}\s*audit_map\s+SEC", "str", "BPF_MAP_TYPE_LRU_HASH", ["C06"]),
     ("localMapMaxEntries", "linux-ebpf/ebpf_cgroup.c", r"\{[^{}]*__uint\(max_entries,\s*(\d+)\)[^{}]*\}\s*local_map\s+SEC", "nat", 200, ["C06"]),
     ("auditMapMaxEntries", "linux-ebpf/ebpf_cgroup.c", r"\{[^{}]*__uint\(max_entries,\s*(\d+)\)[^{}]*\}\s*audit_map\s+SEC", "nat", 200, ["C06"]),
-    ("skipSigPutUrl", "proxy_agent/src/common/hyper_client.rs", r'(?:\bmethod\s*==\s*(?:&?hyper::)?Method::PUT\s*&&\s*url\s*==\s*"([^"]*)"|\burl\s*==\s*"([^"]*)"\s*&&\s*method\s*==\s*(?:&?hyper::)?Method::PUT)', "str", "/vmagentlog", ["C04", "C15"]),
-    ("skipSigPostUrl", "proxy_agent/src/common/hyper_client.rs", r'(?:\bmethod\s*==\s*(?:&?hyper::)?Method::POST\s*&&\s*url\s*==\s*"([^"]*)"|\burl\s*==\s*"([^"]*)"\s*&&\s*method\s*==\s*(?:&?hyper::)?Method::POST)', "str", "/machine/?comp=telemetrydata", ["C04", "C15"]),
-    ("skipSigClauses", ["proxy_agent/src/common/hyper_client.rs"], r'(?:\bmethod\s*==\s*(?:&?hyper::)?Method::\w+\s*&&\s*url\s*==\s*"|\burl\s*==\s*"[^"]*"\s*&&\s*method\s*==\s*(?:&?hyper::)?Method::\w+)', "count", 2, ["C04", "C15"]),
+    ("skipSigPutUrl", "proxy_agent/src/common/hyper_client.rs", r'(?:\bmethod\s*==\s*(?:&?hyper::)?Method::PUT\s*&&\s*url\s*==\s*(?:"([^"]*)"|([A-Z][A-Z0-9_]*))|\burl\s*==\s*(?:"([^"]*)"|([A-Z][A-Z0-9_]*))\s*&&\s*method\s*==\s*(?:&?hyper::)?Method::PUT|\bMethod::PUT\s*=>\s*url\s*==\s*(?:"([^"]*)"|([A-Z][A-Z0-9_]*)))', "str", "/vmagentlog", ["C04", "C15"]),
+    ("skipSigPostUrl", "proxy_agent/src/common/hyper_client.rs", r'(?:\bmethod\s*==\s*(?:&?hyper::)?Method::POST\s*&&\s*url\s*==\s*(?:"([^"]*)"|([A-Z][A-Z0-9_]*))|\burl\s*==\s*(?:"([^"]*)"|([A-Z][A-Z0-9_]*))\s*&&\s*method\s*==\s*(?:&?hyper::)?Method::POST|\bMethod::POST\s*=>\s*url\s*==\s*(?:"([^"]*)"|([A-Z][A-Z0-9_]*)))', "str", "/machine/?comp=telemetrydata", ["C04", "C15"]),
+    ("skipSigClauses", ["proxy_agent/src/common/hyper_client.rs"], r'(?:\bmethod\s*==\s*(?:&?hyper::)?Method::\w+\s*&&\s*url\s*==\s*(?:"|[A-Z])|\burl\s*==\s*(?:"[^"]*"|[A-Z][A-Z0-9_]*)\s*&&\s*method\s*==\s*(?:&?hyper::)?Method::\w+|\bMethod::\w+\s*=>\s*url\s*==\s*(?:"|[A-Z]))', "count", 2, ["C04", "C15"]),
     ("keyDirMode", "proxy_agent/src/acl/linux_acl.rs", r"fs::Permissions::from_mode\(\s*0o([0-7]+)\s*\)", "oct", 0o700, ["C12"]),
     ("keyStructDerivesDebug", ["proxy_agent/src/key_keeper/key.rs"],
      r"#\[derive\([^\]]*Debug[^\]]*\)\]\s*(?:#\[[^\]]*\]\s*)*pub struct Key\s*\{", "count", 0, ["C12"]),
@@ -180,7 +181,19 @@ def extract(extra_facts=None):
                 problems.append({"fact": name, "file": rel,
                                  "why": f"pattern matched {len(ms)} times (want 1)", "props": props})
             else:
-                m = ms[0] if isinstance(ms[0], str) else next((g for g in ms[0] if g), ms[0][0])
+                cands = [ms[0]] if isinstance(ms[0], str) else [g for g in ms[0] if g] or [ms[0][0]]
+                m = cands[0]
+                for c in cands:
+                    try:
+                        parse_value(kind, c)
+                        m = c
+                        break
+                    except ValueError:
+                        continue
+                if kind == "str" and re.fullmatch(r"[A-Z][A-Z0-9_]*", m or ""):
+                    cm = re.findall(r"\bconst\s+%s\s*:\s*&(?:'static\s+)?str\s*=\s*\"([^\"]*)\"\s*;" % re.escape(m), src)
+                    if len(cm) == 1:
+                        m = cm[0]
                 try:
                     val = parse_value(kind, m)
                 except Exception as e:  # noqa
